@@ -47,6 +47,17 @@ class Check(PropCheck):
                               root_len=(kind == 'collapse' and rng.random() < 0.5))
             if kind == 'stats' and rng.random() < 0.3:
                 gen.assign_lengths(t, rng, 'none')
+            elif kind == 'stats' and mode == 'exact' and rng.random() < 0.35:
+                # negative branch lengths (the farthest-pair search must not assume a metric) and partially missing lengths
+                for nd in t.nodes()[1:]:
+                    if rng.random() < 0.3 and nd.length is not None:
+                        nd.length = -nd.length
+                    elif rng.random() < 0.1:
+                        nd.length = None
+            if kind == 'collapse' and rng.random() < 0.12:
+                cand = [nd for nd in t.nodes()[1:] if nd.length is not None]
+                if cand:
+                    rng.choice(cand).length = float('nan')       # NaN is not shorter than any threshold
             self.jobs.append({'cid': 'j%d' % j, 'kind': kind, 'tree': t, 'mode': mode, 'rng': rng.randint(0, 2 ** 30), 'use_o': rng.random() < 0.4})
         return []      # the generic machinery is not used: run() is overridden
 
@@ -120,6 +131,9 @@ class Check(PropCheck):
                         x = rng.choice(inner)
                         ci = rng.choice([i for i, c in enumerate(x.children) if c.children])
                         x.children = x.children[:ci] + x.children[ci].children + x.children[ci + 1:]
+                if rng.random() < 0.3:
+                    from props.c05 import redraw_root
+                    t2 = redraw_root(t2)          # the same unrooted tree drawn from the other side of a (possibly balanced) root split
                 gen.assign_lengths(t2, rng, job['mode'])
                 f2 = os.path.join(d, 'cmp%d.nwk' % q); open(f2, 'w').write(gen.to_newick(t2) + '\n')
                 others.append((f2, t2))
@@ -129,7 +143,7 @@ class Check(PropCheck):
                 mops += ['sel %d' % (q + 1), gen.parse_op(gen.to_newick(t2)), 'partitions', 'sel 0', 'cmp_topo %d' % (q + 1)]
             info['others'] = [f for f, _ in others]
         elif kind == 'collapse':
-            lens = [x.length for x in t.nodes() if x.length is not None]
+            lens = [x.length for x in t.nodes() if x.length is not None and x.length == x.length]
             # boundary values: a threshold exactly equal to an existing branch length (strictly-shorter test)
             # (exact dyadic trees only: for inexact decimals the model keeps the decimal value and the crate its f64 rounding)
             import math
@@ -413,11 +427,13 @@ class Check(PropCheck):
             got = after
             want_text = gen.to_newick(exp)
             # compare through the library parser: parse the expected text in Python terms
+            def nn(x):
+                return 'nan' if (x is not None and x != x) else x
             def canon_t(nd):
-                return (nd.name, nd.length, tuple(canon_t(c) for c in nd.children))
+                return (nd.name, nn(nd.length), tuple(canon_t(c) for c in nd.children))
             def canon_d(nodes, v):
                 n = nodes[v]
-                return (None if n['name'] == '-' else vf.dec_str(n['name']), None if n['pe'] == '-' else vf.bits_f64(int(n['pe'][1:], 16)),
+                return (None if n['name'] == '-' else vf.dec_str(n['name']), None if n['pe'] == '-' else nn(vf.bits_f64(int(n['pe'][1:], 16))),
                         tuple(canon_d(nodes, c) for c in n['children']))
             if got is None or canon_d(got, root_of(got)) != canon_t(exp):
                 return 'collapse: only branches shorter than the threshold (tips excluded with -e) may become zero; got %r expected %r' % (res['out'][:150], want_text[:150])
